@@ -34,6 +34,9 @@ RECIPES = [
                                    'Graph(new_triples, epidata=new_epidata, metadata=g.metadata)')], key='reify_attributes'),
     fire('R4-truthiness-format', 'R4', [E(FM, '_format_edge', "target is None or target == ''", 'not target')], key='_format_edge'),
     fire('R4-truthiness-configure', 'R4', [E(LA, '_configure_node', "target is None or target == ''", 'not target')], key='_configure_node'),
+    fire('R74-swallowed-decode-error', 'R74', [E(PA, 'parse', 'return _parse(tokens)', 'try:\n    return _parse(tokens)\nexcept Exception:\n    return None')]),
+    silent('R74-widened-int-handler', ['R74'], [E(LA, 'node_contexts', 'try:\n    for epi in g.epidata.get(triple, []):\n        if isinstance(epi, Pop):\n            stack.pop()\nexcept IndexError:\n    break',
+                                                  'try:\n    for epi in g.epidata.get(triple, []):\n        if isinstance(epi, Pop):\n            stack.pop()\nexcept Exception:\n    break')]),
     fire('R5-inlined-deinvert', 'R5', [E(LA, '_interpret_node', 'triple = model.deinvert(triple)', 'triple = model.invert(triple)')]),
     fire('R6-splitlines', 'R6', [E(LX, 'lex', r"lines = re.split('\\r\\n|\\r|\\n', lines)", 'lines = lines.splitlines()')]),
     fire('R6-split-lf', 'R6', [E(LX, 'lex', r"lines = re.split('\\r\\n|\\r|\\n', lines)", "lines = lines.split('\\n')")]),
